@@ -21,8 +21,8 @@ RULE = ("every key of chord_shorthand / chord_shorthand_meaning x every root (le
         "shorthand."
         " Also: three- and four-part polychords, slash chords as upper / lower part of a polychord, any valid name (mixed / many accidentals) as slash bass, 'X|NC', and a coverage-guided atheris campaign over shorthand-like text.")
 ASSUMPTIONS = [
-    "the empty string and empty slash/polychord halves ('', 'C/', 'C|', 'C//G', and the empty chord as a polychord "
-    "half: 'C|NC') are outside the malformed domain",
+    "the empty string and empty slash/polychord parts ('', 'C/', 'C|', 'C//G') are malformed input like any other text: built or "
+    "rejected with FormatError/NoteFormatError (they raised IndexError on the pinned tree; repaired, see KNOWN_FINDINGS.txt)",
     "notes are compared on letter + pitch class + unmixed + <= 6 accidentals, the root and a slash bass exactly",
     "the three shorthands that contain '/' (m/M7, 6/9, 6/7) are not combined with a slash bass",
     "'N.C.' may build the empty chord or be rejected; 'NC' must build the empty chord",
@@ -169,8 +169,10 @@ def check_poly_nc(ctx, case):
 
 def check_malformed(ctx, case):
     kind, s = case
-    if not isinstance(s, str) or _empty_half(s) or s in ("NC", "N.C."):
+    if not isinstance(s, str) or s in ("NC", "N.C."):
         return
+    if kind != "text" and _empty_half(s):  # the constructed classes assume a root, a suffix and a bass; empty parts are judged as text
+        kind = "text"
     if kind == "unknown-suffix":
         # s = root + suffix; the suffix is unknown under every alias reading and does not extend the root
         ctx.raises("malformed/unknown-suffix", (FormatError,), chords.from_shorthand, s)
@@ -194,7 +196,7 @@ def check_malformed(ctx, case):
             ctx.label("text:rejected")
         except Exception as e:  # noqa
             ctx.fail("malformed/text/wrong-error/" + type(e).__name__, "from_shorthand(%r) raised %r" % (s, e))
-        nt = s[0] in "ABCDEFG"
+        nt = s[:1] in tuple("ABCDEFG")
     ctx.note_case(nt, ["malformed:" + kind])
 
 
@@ -364,7 +366,7 @@ def _st_text():
         return s[:pos] + s[pos + 1:]
     near = st.builds(mutate, valid, st.integers(0, 30), st.sampled_from(list("ABGHabm#/|-M7 x9")) | st.characters(),
                      st.integers(0, 2))
-    raw = st.text(min_size=1, max_size=8) | st.text(alphabet="ABCDEFG#b/|mM7965+-susdimajNC. ", min_size=1, max_size=10)
+    raw = st.text(max_size=8) | st.text(alphabet="ABCDEFG#b/|mM7965+-susdimajNC. ", max_size=10)
     return (raw | near | near).map(lambda s: ["text", s])
 
 
@@ -377,6 +379,9 @@ def sub_malformed(ctx, shard, n):
                    ["bad-bass-in-polychord", "Am/H|C"], ["bad-bass-in-polychord", "C|Am/H"], ["bad-bass-in-polychord", "C/Gm|F"],
                    ["bad-bass-in-polychord", "G|Dm7/e|C"], ["unknown-suffix-in-polychord", "Cfoo|G"], ["unknown-suffix-in-polychord", "G|Cfoo"],
                    ["bad-root-in-polychord", "Hm|C"], ["bad-root-in-polychord", "C|Hm"]])
+    # the empty string and empty parts of slash chords / polychords are strings like any other: built or rejected with the format errors
+    ctx.enumerate("malformed", check_malformed, [["text", s] for s in (
+        "", "C/", "C|", "|C", "|", "/", "||", "//", "Am7/", "C/G|", "C//G", "/C", "|/", "C|/", "C|G|", "C||G", "NC/", "NC|", "|NC", "m7", "7", " ")])
     ctx.given("malformed", check_malformed, _st_malformed(), 2000 if ctx.quick else 10000)
     ctx.given("malformed", check_malformed, _st_text(), 2000 if ctx.quick else 10000)
 
